@@ -1,13 +1,12 @@
 (* C08 — Number encodings are lossless where possible, bounded-error and minimal.
    Only statements here; proofs are in proofs/NumProofs.v.
 
-   Not proved (kept visible): zto_bounded — a zero-to-one value in a 1- or 2-byte form decodes to
-   within 4 units in the last place of the input.  The decoder value fl(u/15120) and the encoder
-   guard fl(f*15120) = u are both modelled and compared bit-for-bit with the implementation on every
-   code, but the bound itself is not a theorem (it needs monotonicity of rounding, not yet proved
-   for SF.rne_pos).  zto_form / zto_decode below are the proved part. *)
+   zto_bounded (proofs/ZtoBound.v): a zero-to-one value written in a 1- or 2-byte form reads back within 4
+   units in the last place of the input — from the rounding specification of the soft-float (the guard
+   fl(f*15120) = u pins f*15120 to within half a unit of u) and a kernel sweep over the 15120 codes for the
+   decoder's value; zto_zero: code 0 is written only for a zero. *)
 From Coq Require Import ZArith Bool List.
-From IVG Require Import SF NumCodec NumBase NumProofs.
+From IVG Require Import SF NumCodec NumBase NumProofs RoundTrip ZtoBound.
 Import ListNotations.
 Local Open Scope Z_scope.
 
@@ -137,7 +136,18 @@ Theorem zto_decode_partial : forall u rest, 0 <= u < 15120 ->
 Proof. exact NumProofs.dec_zero_to_one_forms. Qed.
 Print Assumptions zto_decode_partial.
 
+Theorem zto_bounded : forall f u s m e, wf_f32 f -> decode F32 f = FFin s m e -> zto_short f = Some u -> 1 <= u ->
+  Z.abs (ival32 (q_zto f) - ival32 f) <= 4 * 2 ^ (Z.log2 (ival32 f) - 23).
+Proof. exact ZtoBound.zto_bounded. Qed.
+Print Assumptions zto_bounded.
+
+Theorem zto_zero : forall f s m e, wf_f32 f -> decode F32 f = FFin s m e -> zto_short f = Some 0 -> m = 0.
+Proof. exact ZtoBound.zto_zero. Qed.
+Print Assumptions zto_zero.
+
 (* non-vacuity: concrete inputs meeting the hypotheses *)
+Example ex_zto : zto_short 1051372203 (* 1/3 *) = Some 5040 /\ decode F32 1051372203 = FFin false 11184811 (-25).
+Proof. vm_compute. split; reflexivity. Qed.
 Example ex_real_short : real_short 1120403456 (* 100.0 *) = Some 100.
 Proof. vm_compute. reflexivity. Qed.
 Example ex_coord2 : coord_short1 1069547520 (* 1.5 *) = None /\ coord_short2 1069547520 = Some 96.
